@@ -399,6 +399,30 @@ def r2(ctx):
                           % (b, fname, want), mod.loc(fn))
 
 
+def _is_all_equal(test):
+    """all(<x> == <y> for <x> in <zs>) modulo names"""
+    if not (isinstance(test, ast.Call) and is_name(test.func, 'all') and len(test.args) == 1):
+        return False
+    g = test.args[0]
+    if not isinstance(g, ast.GeneratorExp) or len(g.generators) != 1 or g.generators[0].ifs:
+        return False
+    e = g.elt
+    return (isinstance(e, ast.Compare) and len(e.ops) == 1 and isinstance(e.ops[0], ast.Eq) and
+            isinstance(g.generators[0].target, ast.Name) and
+            g.generators[0].target.id in (src(e.left), src(e.comparators[0])))
+
+
+def _is_unflatten_of_call(fn, value):
+    """tree_unflatten(<param 0>, <param 1>(<param 2>)) modulo parameter names"""
+    ps = [a.arg for a in fn.args.posonlyargs + fn.args.args]
+    if len(ps) != 3 or not (isinstance(value, ast.Call) and call_name(value) == 'tree_unflatten'):
+        return False
+    a = value.args
+    return (len(a) == 2 and not value.keywords and is_name(a[0], ps[0]) and isinstance(a[1], ast.Call) and
+            is_name(a[1].func, ps[1]) and len(a[1].args) == 1 and is_name(a[1].args[0], ps[2]) and
+            not a[1].keywords)
+
+
 @rule('R3', floor=6, title='the three ravel backends have the same structure')
 def r3(ctx):
     pkg = ctx.py()
@@ -414,14 +438,13 @@ def r3(ctx):
             continue
         parts = [c.args[0].id for c in _partials(fn)]
         empties = [s for s in fn.body if isinstance(s, ast.If) and src(s.test) == 'not leaves']
-        single = [s for s in walk(fn) if isinstance(s, ast.If) and
-                  re.search(r'all\(\(?dt == to_dtype for dt in from_dtypes\)?\)', src(s.test))]
+        single = [s for s in walk(fn) if isinstance(s, ast.If) and _is_all_equal(s.test)]
         shapes[b] = (parts, bool(empties), bool(single))
         tr = mod.funcs.get('tree_ravel')
         fl = [c for c in calls_under(tr) if call_name(c) == 'tree_flatten']
         un = mod.funcs.get('_tree_unravel')
-        oku = un is not None and any(isinstance(s, ast.Return) and
-                                     src(s.value) == 'tree_unflatten(treespec, unravel_flat(flat))' for s in un.body)
+        oku = un is not None and any(isinstance(s, ast.Return) and _is_unflatten_of_call(un, s.value)
+                                     for s in un.body)
         ctx.check('%s/tree_ravel/shape' % b, len(fl) == 1 and oku,
                   '%s: tree_ravel = tree_flatten + _ravel_leaves; unravel = tree_unflatten(treespec, unravel_flat(flat))' % b,
                   '%s: tree_ravel/_tree_unravel do not have the flatten / unflatten shape' % b,
